@@ -15,7 +15,7 @@ OFFSETS = ["E_L/tau", "I_e/C_m", "1", "3/2", "I_e", "-E_L*g_L/C_m", "2.5", "E_L 
 NAMES = ["V_m", "x", "y", "z", "g_ex", "I_in", "u", "q", "r1", "s_2"]
 SHAPES = ["isolated", "chain", "fan_in", "fan_out", "cycle", "antisym", "nonadjacent", "offset_single", "offset_in_group",
           "depends_on_offset", "numeric_dep_analytic", "analytic_dep_numeric", "higher_order", "higher_order_offset", "mixed_nonlinear",
-          "time_dependent", "dense3", "chain_to_nonlinear", "chain_from_offset", "const_drift", "lin_and_nonlin_same_var", "numeric_reads_derivative"]
+          "time_dependent", "dense3", "chain_to_nonlinear", "chain_from_offset", "const_drift", "lin_and_nonlin_same_var", "numeric_reads_derivative", "tiny_literals", "higher_order_driven"]
 
 
 def nonlinear_term(rng, me, others):
@@ -115,6 +115,31 @@ def make_truth(rng, shape=None, n=None):
     elif shape == "time_dependent":
         ent(a, lin={a: dec()}, tterm=rng.choice(["t", "a*t", "sin(t)", "t/tau"]))
         ent(b, lin={b: dec()})
+    elif shape == "higher_order_driven":
+        # a linear shape of order 2 or 3 whose highest derivative is driven by a variable of ANOTHER shape that ends up not analytic
+        # (nonlinear, or carrying an offset): the verdict has to travel down the shape's own derivative chain
+        o = rng.choice([2, 2, 3])
+        lin = {a + "'" * k: rng.choice(["-1/tau**2", "-2/tau", "-1", "-3", "-2"]) for k in range(o)}
+        lin[b] = cf()
+        ent(a, order=o, lin=lin)
+        if rng.random() < 0.6:
+            ent(b, lin={b: dec()}, nonlin=[nonlinear_term(rng, b, [])])
+        else:
+            ent(b, lin={b: dec()}, off=rng.choice(OFFSETS))
+        if rng.random() < 0.4:
+            ent(c, lin={c: dec()})
+    elif shape == "tiny_literals":
+        # quantities in SI units: a femto-scale offset / drift / self-coupling next to O(1) terms (numeric literals, not parameters)
+        k = rng.choice([0, 1, 2])
+        if k == 0:
+            ent(a, lin={a: dec()}, off=rng.choice(["5E-15", "-2E-15", "4.0E-13"]))
+        elif k == 1:
+            ent(a, lin={b: cf()}, off=rng.choice(["2E-15", "-5E-15"]))
+            ent(b, lin={b: dec()})
+        else:
+            ent(a, lin={a: rng.choice(["-2.5E-15", "-1E-14"])}, off=rng.choice(["1", "I_e"]))
+        if rng.random() < 0.4:
+            ent(c, lin={c: dec()})
     elif shape == "chain_to_nonlinear":
         # w <- v <- u, u not analytically solvable (depth >= 2 so that the verdict has to travel)
         ent(a, lin={a: dec(), b: cf()})
@@ -252,7 +277,7 @@ def to_indict(rng, T, style=None, order=None, with_params=None, options=None, pa
         import re
         if re.search(r"(?<![A-Za-z0-9_])%s(?![A-Za-z0-9_])" % p, blob):
             used.add(p)
-    wp = with_params if with_params is not None else rng.choice(["none", "all", "all", "partial", "extra"])
+    wp = with_params if with_params is not None else rng.choice(["none", "all", "all", "partial", "extra", "empty"])
     pv = dict(PARAM_VALUES)
     if param_values:
         pv.update(param_values)
@@ -261,6 +286,8 @@ def to_indict(rng, T, style=None, order=None, with_params=None, options=None, pa
     elif wp == "partial" and used:
         keep = sorted(used)[: max(1, len(used) // 2)]
         ind["parameters"] = {p: pv[p] for p in keep}
+    elif wp == "empty":
+        ind["parameters"] = {}          # present but empty: valid input
     elif wp == "extra":
         ind["parameters"] = {p: pv[p] for p in sorted(used)}
         ind["parameters"]["unused_k"] = "42"
